@@ -162,6 +162,17 @@ def run_system(task):
         dominant = c_idx in fv and all(fv[c_idx] > w for j_, w in fv.items() if j_ != c_idx)
         fwd_c = [x for x in tF if x[0] == c_idx]
         bwd_c = [x for x in tB if x[0] == c_idx]
+        # edge attributes: the cmi on the edge (variable a, lag l) -> v must be the value the estimator returned, in the emission
+        # phase of target v, for THAT predictor column (not the value of another selected predictor)
+        emit = {}
+        for c in spy.cmi_calls:
+            if c["target"] == v and c["phase"] == "emit":
+                j = idx(c["X"])[0]
+                if j >= 0:
+                    emit[j] = float(c["value"])
+        wrong = [(a, l, cv, emit[a * L + l - 1]) for a, l, cv in edges_v
+                 if a * L + l - 1 in emit and not (cv == emit[a * L + l - 1] or (math.isnan(cv) and math.isnan(emit[a * L + l - 1])))]
+        res["edge_value_mismatch"] = wrong[:3]
         res.update({"landscape_ok": ok, "init": init, "tf": tf, "tF": tF, "tB": tB, "order": order,
                     "planted_fwd_pass": bool(fwd_c) and all(x[2] for x in fwd_c),
                     "planted_bwd_pass": bool(bwd_c) and all(x[2] for x in bwd_c),
@@ -266,6 +277,10 @@ def run(chk):
             elif r["method"] == "alternative" and r["planted_dominant_first_step"] and not r["planted_tested_fwd"]:
                 fail = (f"planted predictor X{r['u']}(t-{r['tau']}) had strictly the largest information at the first step of the "
                         f"alternative forward pass for target X{r['v']} but was never tested")
+            elif r.get("edge_value_mismatch"):
+                a_, l_, cv_, ev_ = r["edge_value_mismatch"][0]
+                fail = (f"edge X{a_}->X{r['v']} lag {l_} carries cmi {cv_} but the estimator returned {ev_} for that predictor in the "
+                        f"edge-emission phase of target X{r['v']} (the value belongs to another selected predictor)")
             elif r["recovered"] and not (r["planted_fwd_pass"] and r["planted_bwd_pass"]):
                 fail = (f"edge X{r['u']}->X{r['v']} lag {r['tau']} reported although the planted predictor did not pass both tests")
             cases.append(f"({coq_bool(r['method'] == 'standard')}, {r['n'] * r['L']}%nat, {r['L']}%nat, "
